@@ -126,10 +126,10 @@ func isInputLenD(v ssa.Value, ptrBits, d int) bool {
 	case *ssa.BinOp:
 		switch x.Op {
 		case token.QUO, token.SUB, token.SHR, token.ADD, token.MUL, token.SHL:
-			if k, ok := constInt64(x.Y); ok && k >= 0 && k <= 64 {
+			if k, ok := constInt64(x.Y); ok && k >= 0 && k <= allocConstCap {
 				return isInputLenD(x.X, ptrBits, d+1)
 			}
-			if k, ok := constInt64(x.X); ok && k >= 0 && k <= 64 && (x.Op == token.ADD || x.Op == token.MUL) {
+			if k, ok := constInt64(x.X); ok && k >= 0 && k <= allocConstCap && (x.Op == token.ADD || x.Op == token.MUL) {
 				return isInputLenD(x.Y, ptrBits, d+1)
 			}
 			if x.Op == token.ADD || x.Op == token.SUB {
@@ -334,6 +334,26 @@ func boundWithin(bound, x ssa.Value, b *ssa.BasicBlock, ptrBits int, strict bool
 	for _, u := range br.symHi {
 		if isLenBound(u, false) {
 			return true
+		}
+	}
+	// bound = A + B with B <= u known and A + u == len(x) as linear forms
+	if bo, ok := stripChangeOnly(bound).(*ssa.BinOp); ok && bo.Op == token.ADD {
+		for _, p := range [][2]ssa.Value{{bo.X, bo.Y}, {bo.Y, bo.X}} {
+			a, bb := p[0], p[1]
+			for _, u := range rangeAt(bb, b, ptrBits).symHi {
+				// find a len(x) expression among u's atoms: build len(x) from any len call in u
+				var lenCall ssa.Value
+				var f linForm
+				linOf(u, 1, &f, 0)
+				for _, at := range f.atoms {
+					if isLenOf(at, x) {
+						lenCall = at
+					}
+				}
+				if lenCall != nil && linSumEquals(a, u, lenCall) {
+					return true
+				}
+			}
 		}
 	}
 	// bound = v + 1 with v < len(x)
